@@ -19,6 +19,7 @@ import (
 	"time"
 
 	"github.com/prometheus/prometheus/prompb"
+	"github.com/prometheus/prometheus/promql/parser"
 
 	"verifharness/internal/gen"
 )
@@ -66,7 +67,15 @@ type mSeries struct {
 }
 
 type mPayload struct {
-	Kind     string    `json:"kind"` // rangefn | selector | agg | absent
+	Kind     string    `json:"kind"` // rangefn | selector | agg | absent | vs | vv
+	// vs / vv: binary operator between a vector and a scalar / two vectors with one-to-one matching
+	BinOp    string    `json:"binop,omitempty"`
+	RetBool  bool      `json:"ret_bool,omitempty"`
+	Swap     bool      `json:"swap,omitempty"`   // the scalar is the left operand
+	Scalar   string    `json:"scalar,omitempty"` // the scalar operand
+	On       bool      `json:"on,omitempty"`
+	MLabels  []string  `json:"mlabels,omitempty"` // labels of on(...) / ignoring(...)
+	In2      []jseries `json:"in2,omitempty"`     // right operand vector
 	Fn       string    `json:"fn,omitempty"`
 	Param    string    `json:"param,omitempty"` // scalar argument of quantile_over_time / predict_linear
 	// absent: did the engines return the (single) element
@@ -481,6 +490,74 @@ func buildModel(ds *dataset, e *exprCase, t int64, up, sv result, r *gen.Rand) *
 	return nil
 }
 
+var modelledBinops = map[string]bool{"+": true, "-": true, "*": true, "/": true, "%": true,
+	"==": true, "!=": true, ">": true, "<": true, ">=": true, "<=": true}
+
+func stripParens(e parser.Expr) parser.Expr {
+	for {
+		p, ok := e.(*parser.ParenExpr)
+		if !ok {
+			return e
+		}
+		e = p.Expr
+	}
+}
+
+// binopModel: the inputs the Coq model of binary operators needs - the operand vectors as the upstream engine
+// evaluates them at t, the operator, its modifiers, and both engines' answers.
+func binopModel(u *upstream, e *exprCase, t int64, up, sv result) *mPayload {
+	ast, err := parser.ParseExpr(e.Expr)
+	if err != nil {
+		return nil
+	}
+	be, ok := stripParens(ast).(*parser.BinaryExpr)
+	if !ok || !modelledBinops[be.Op.String()] || up.Kind != "vector" {
+		return nil
+	}
+	l, r := stripParens(be.LHS), stripParens(be.RHS)
+	ln, lnum := l.(*parser.NumberLiteral)
+	rn, rnum := r.(*parser.NumberLiteral)
+	mp := &mPayload{T: t, BinOp: be.Op.String(), RetBool: be.ReturnBool, OutUp: jvec(up), OutSv: jvec(sv)}
+	evalVec := func(x parser.Expr) ([]jseries, bool) {
+		if x.Type() != parser.ValueTypeVector {
+			return nil, false
+		}
+		res := u.instant(x.String(), t)
+		if res.Err != "" || res.Kind != "vector" || len(res.Series) > 40 {
+			return nil, false
+		}
+		return jvec(res), true
+	}
+	switch {
+	case lnum && rnum:
+		return nil
+	case lnum || rnum:
+		mp.Kind = "vs"
+		vecSide, num := l, rn
+		if lnum {
+			vecSide, num, mp.Swap = r, ln, true
+		}
+		in, ok := evalVec(vecSide)
+		if !ok {
+			return nil
+		}
+		mp.In, mp.Scalar = in, strconv.FormatFloat(num.Val, 'g', -1, 64)
+		return mp
+	default:
+		if be.VectorMatching == nil || be.VectorMatching.Card != parser.CardOneToOne {
+			return nil
+		}
+		a, ok1 := evalVec(l)
+		b, ok2 := evalVec(r)
+		if !ok1 || !ok2 {
+			return nil
+		}
+		mp.Kind, mp.In, mp.In2 = "vv", a, b
+		mp.On, mp.MLabels = be.VectorMatching.On, be.VectorMatching.MatchingLabels
+		return mp
+	}
+}
+
 func jvec(res result) []jseries {
 	out := []jseries{}
 	for _, s := range res.Series {
@@ -512,8 +589,10 @@ func runCase(n int, di int, ds *dataset, u *upstream, sv *server, e exprCase, mo
 	co := runCase1(n, di, ds, u, sv, e, mode, t, start, end, step, hit, r)
 	// A disagreement outside every signature must persist: queries racing the asynchronous flush of the ingestion can
 	// transiently miss samples (that is C04's subject, not C18's); re-ask twice before reporting.
-	for try := 0; try < 2 && co.Unexplained; try++ {
-		time.Sleep(800 * time.Millisecond)
+	for try := 0; try < 4 && co.Unexplained; try++ {
+		// 0.8 s, 1.6 s, 3.2 s, 6.4 s: on the (shared, often overloaded) machine a flushed file was seen to stay
+		// invisible to queries for more than 1.6 s; a genuine defect persists for ever
+		time.Sleep(time.Duration(800<<uint(try)) * time.Millisecond)
 		co2 := runCase1(n, di, ds, u, sv, e, mode, t, start, end, step, hit, r)
 		if !co2.Unexplained {
 			co2.Transient = (co.Diff + co.RiDiff)
@@ -559,6 +638,9 @@ func runCase1(n int, di int, ds *dataset, u *upstream, sv *server, e exprCase, m
 			}
 		}
 		co.Model = buildModel(ds, &e, t, up, svr, r)
+		if e.Form == "binop" && svr.Err == "" {
+			co.Model = binopModel(u, &e, t, up, svr)
+		}
 		if e.Form == "agg" && svr.Err == "" {
 			in := u.instant(e.Inner, t)
 			if in.Err == "" && len(in.Series) <= 40 {
